@@ -22,12 +22,17 @@ C20_FILES = ["C20/Model.v", "C20/Interleave.v", "C20/Locks.v", "C20/SeqRun.v", "
 GORACE = "halt_on_error=1 atexit_sleep_ms=0 exitcode=66 history_size=2"
 
 RULE = ("one case = one round: k goroutines (quick 4, thorough 8) started behind a barrier, each running a workload "
-        "twice on instances it builds itself (hash tables/sets with own hash functions, ordered tables, tries, heaps, "
-        "sorts, FIRST/FOLLOW, CFG transformations, predictive/SLR/LALR/LR(1) tables and parses, automata), under "
+        "twice on instances it builds itself, calling every exported method family (hash tables and sets with own hash "
+        "functions incl. *Match/Powerset/Partitions/algebra; ordered tables and both tries incl. Floor/Ceiling/Select/Rank/"
+        "Range/Match/WithPrefix/LongestPrefixOf/Traverse; heaps and indexed heaps incl. Contains*/Merge/ChangeKey; all sorts "
+        "and radix sorts, union-find; lists, (weighted) graphs with all algorithms, input reader; FIRST/FOLLOW, all CFG "
+        "transformations, predictive/SLR/LALR/LR(1) tables, Parse/ParseAndBuildAST/ParseAndEvaluate; automata incl. "
+        "ToDFA/Minimize/Isomorphic/CombineDFA/Concat; the exported Hash*/Eq*/Cmp* helpers), under "
         "GOMAXPROCS 2, 4 and 16, harness built with -race; rounds alternate: same workload with different contents, "
         "same workload with identical contents, random mix. Every goroutine's digest is compared with the digest of "
         "the same workload run alone. distinct_nontrivial = distinct (GOMAXPROCS, workload#instance per goroutine) "
-        "assignments; every round is non-trivial (>= 2 goroutines working concurrently).")
+        "assignments; every round is non-trivial (>= 2 goroutines working concurrently). When the obligation is broken the "
+        "workloads of the package named by the non-benign inventory entry run first, alone (batch race-directed).")
 
 ASSUMPTIONS = [
     "MODELLED, NOT VERIFIED: an operation's footprint is its receiver's reachable heap, its arguments and the listed "
@@ -41,6 +46,34 @@ ASSUMPTIONS = [
     "source, fmt, time, io.EOF ...); anything not in the table is `unclassified`",
     "the race detector only observes the schedules that occurred; it is a search for a failing schedule, not a proof",
 ]
+
+
+# which workloads exercise a package (used to direct the search when the obligation names a variable)
+ALL_WL = ["hashtables", "ordered", "sets", "tries", "heaps", "sorts", "first-follow", "transforms", "predictive", "slr",
+          "lalr", "lr1", "helpers", "misc", "automata"]
+PKG_WL = {
+    "trie": ["tries"], "symboltable": ["hashtables", "ordered", "helpers"], "set": ["sets", "first-follow"],
+    "heap": ["heaps"], "sort": ["sorts"], "radixsort": ["sorts"], "unionfind": ["sorts"], "list": ["misc", "slr"],
+    "graph": ["misc"], "lexer/input": ["misc"], "lexer": ["misc", "predictive", "slr"], "dot": ["misc", "automata", "heaps"],
+    "hash": ["helpers", "hashtables", "first-follow", "automata"], "automata": ["automata", "helpers"],
+    "grammar": ["first-follow", "transforms", "helpers", "predictive", "slr"], "errors": ["first-follow", "slr", "predictive"],
+    "parser": ["predictive", "slr", "lalr", "lr1"], "parser/predictive": ["predictive"], "parser/lr": ["slr", "lalr", "lr1", "helpers"],
+    "parser/lr/simple": ["slr"], "parser/lr/lookahead": ["lalr"], "parser/lr/canonical": ["lr1"], "generic": ALL_WL,
+}
+
+
+def _directed_workloads(bad_globals):
+    """Workloads of the packages named by the non-benign entries of the inventory (std: entries: the referencing packages)."""
+    wls = []
+    for g in bad_globals:
+        pkgs = [g["package"]]
+        if g["package"].startswith("std:"):
+            pkgs = g.get("pos", "").replace("referenced from ", "").split(",")
+        for pk in pkgs:
+            for w in PKG_WL.get(pk.strip(), []):
+                if w not in wls:
+                    wls.append(w)
+    return wls
 
 
 def _paths():
@@ -226,10 +259,18 @@ def main(run):
     for cf in ([] if os.environ.get("VERIF_C20_NO_CORPUS") else sorted(glob.glob(os.path.join(vlib.ROOT, "corpus", PROP, "*.case")))):  # (env: development only, to calibrate the generated search alone)
         batches.append(("corpus-" + os.path.basename(cf)[:-5], "--replay " + cf, 600))
     if tier == "thorough":
+        if not proof_ok and _directed_workloads(bad_globals):
+            batches.append(("race-directed", "-mode race -tier thorough -budget 120 -wl %s" % ",".join(_directed_workloads(bad_globals)), 900))
         batches.append(("race", "-mode race -tier thorough -budget 420", 1200))
+    elif proof_ok:
+        batches.append(("race", "-mode race -tier quick -budget 24", 600))
     else:
-        # a broken obligation buys a longer search for the schedule that exhibits it
-        batches.append(("race", "-mode race -tier quick -budget %d" % (24 if proof_ok else 75), 600))
+        # A broken obligation buys a longer search for the schedule that exhibits it, and directs it: the non-benign
+        # entries name their package, so the workloads of that package run first, alone, with all the rounds.
+        dw = _directed_workloads(bad_globals)
+        if dw:
+            batches.append(("race-directed", "-mode race -tier quick -budget 35 -wl %s" % ",".join(dw), 600))
+        batches.append(("race", "-mode race -tier quick -budget %d" % (45 if dw else 75), 600))
     evals = nontriv = 0
     dist, samples = {}, []
     found = False
